@@ -29,10 +29,34 @@ def main():
         return {"e": "Neutral", "case": idx, "comp": comp, "s1": s1, "s2": s2, "exit": r.exit, "outlen": len(r.out), "ret": campaign.retof(r), "out": r.out[:400]}
 
     res = vf.pmap(one, [(i, cs, comp) for i, cs in enumerate(cases) for comp in comps])
-    events = [r for r in res if r]
+
+    # hand-written neutral pairs (constructs Abi.tla does not generate: anonymous members re-ordered / moved between units, typedef-named aggregates)
+    sdir = os.path.join(vf.VERIF, "render", "neutral_samples")
+    samples = sorted(d for d in os.listdir(sdir) if os.path.isdir(os.path.join(sdir, d)))
+
+    def one_sample(job):
+        k, name, comp = job
+        cc, flags = campaign.COMPILERS[comp]
+        libs = []
+        for side in ("a", "b"):
+            d = os.path.join(c.workdir, "p%d" % (100000 + k), comp, side)
+            files = {fn: open(os.path.join(sdir, name, side, fn)).read() for fn in sorted(os.listdir(os.path.join(sdir, name, side))) if fn.endswith(".c")}
+            path, err = campaign.compile_prog(d, files, cc, tuple(flags), "dso", "lib.so")
+            if not path:
+                return None
+            libs.append(path)
+        evs = []
+        for x, y, direction in ((libs[0], libs[1], "a-b"), (libs[1], libs[0], "b-a")):
+            r = vf.run([abidiff, "--no-default-suppression", x, y], env=vf.henv(os.path.dirname(libs[0])))
+            evs.append({"e": "Neutral", "case": 100000 + k, "comp": comp, "s1": {"sample": name, "tus": 1, "statics": 0, "unused": 0}, "s2": {"direction": direction, "tus": 1, "statics": 0, "unused": 0},
+                        "exit": r.exit, "outlen": len(r.out), "ret": campaign.retof(r), "out": r.out[:400]})
+        return evs
+    sres = vf.pmap(one_sample, [(k, name, comp) for k, name in enumerate(samples) for comp in comps])
+    events = [r for r in res if r] + [e for evs in sres if evs for e in evs]
+    c.cov["hand_written_neutral_pairs"] = len(samples)
     c.discard("does-not-compile", len(res) - len(events))
     c.cov["evaluations"] = len(events)
-    c.cov["distinct_nontrivial"] = len({e["case"] for e in events if (e["s1"]["tus"] != e["s2"]["tus"] or e["s2"]["statics"] or e["s2"]["unused"]) and campaign.nontrivial_program(cases[e["case"]])})
+    c.cov["distinct_nontrivial"] = len({e["case"] for e in events if (e["s1"]["tus"] != e["s2"]["tus"] or e["s2"]["statics"] or e["s2"]["unused"]) and e["case"] < 100000 and campaign.nontrivial_program(cases[e["case"]])})
     c.cov["rule"] = ("TLC-generated programs rendered twice with different neutral choices (definition order, parameter names, bodies, line shifts, static helpers, unused types, "
                      "distribution of definitions over 1-3 translation units), compilers %s; non-trivial = the two renderings differ in TU split, statics or unused types and the program has >= 2 composite kinds" % comps)
     for e in events[:3]:
